@@ -28,6 +28,19 @@ CLAIMED["C02"] = {
     "design": "4/C02",
 }
 
+CLAIMED["C07"] = {
+    "text": "Lean theorems: for EVERY string x, quote(x) is read by the POSIX word recogniser as exactly one word equal to x; and in any command line pre ++ quote(x) ++ post where the interpolation is at a word position, the value cannot change the number of words or the parse (injection freedom). Correspondence: all strings of length <=2 (quick) / <=3 (thorough) over a 26-symbol metacharacter alphabet, injection payloads and random longer strings delivered through quote(), exported $param, \"$1\"/\"$@\"/$0 (linewise and shebang), variadic words and NAME=VALUE overrides with the real /bin/sh, a canary file, the quote() text compared with the Lean model through a logging shell, and the word model validated against dash.",
+    "note": "Trusted: Lean kernel; the POSIX word model for the quoting subset (validated against dash every run); env/argv passing is the OS's and std::process::Command's; NUL / invalid UTF-8 excluded by the statement.",
+    "technique": "Lean 4 proof (induction on the string, shape-simulation lemma) + exhaustive small-scope differential with real sh",
+    "design": "4/C07",
+}
+CLAIMED["C13"] = {
+    "text": "Lean theorems over a transition system of the handler bookkeeping, for every command sequence and EVERY interleaving of signal deliveries (universally quantified step lists): just never exits while a child is registered; once a fatal signal is processed while a non-`-` command runs no further command is ever spawned and just exits when it ends; exit code 128+signal / child's own status; idle delivery exits at once; only SIGTERM is forwarded; plus the witness that the pinned Linux handler (which did not record the signal) violates it - repaired by a fix: commit. Correspondence: ~380 forced schedules (8 program templates incl. --choose/--command/--evaluate x command index x during/idle x 4 signals x 3 child reactions) driven through the marker/gate hooks, no sleeps.",
+    "note": "Trusted: kernel signal delivery, the self-pipe and handler thread; `arrives` = processed by the handler thread (marker hook). `-` lines are outside the claim (model correspondence only). --command failures exit 1 (only non-zero required).",
+    "technique": "Lean 4 proof (invariants by induction over schedules) + forced-schedule differential through hooks",
+    "design": "4/C13",
+}
+
 PENDING = "check not built yet in this session (see DESIGN.md build order); no claim is made"
 
 
